@@ -1,0 +1,25 @@
+// SPDX-FileCopyrightText: 2022-present Intel Corporation
+//
+// SPDX-License-Identifier: Apache-2.0
+
+//go:build verif
+
+// Contracts for the deductive verifier in /verif (govc). Comment-only: this file contains no code
+// and is excluded from every build that does not set the "verif" tag.
+
+package utils
+
+//@ import configapi "github.com/onosproject/onos-api/go/onos/config/v2"
+//@ import topoapi "github.com/onosproject/onos-api/go/onos/topo"
+
+// The identity of this onos-config node: a function of the environment only.
+//@ uninterp onosConfigID() string
+//@ func GetOnosConfigID() (id)
+//@   trusted
+//@   pure
+//@   ensures id == onosConfigID()
+
+//@ func AddDeleteChildren(index, changeValues, configStore) (result)
+//@   trusted
+//@   modifies every("configapi.PathValue").Index, every("configapi.PathValue").Deleted
+//@   ensures result != nil && fresh(result)
